@@ -528,3 +528,96 @@ def trace_bad(chk, jobs, results):
         for t in r.printed("BAD"):
             bad.append((job["_idx"][t[1] - 1], t[2]))
     return sorted(bad)
+
+
+# --------------------------------------------------------------------------------------
+# C35: Mellin inversion of the interpolation basis along the solver's own path
+# --------------------------------------------------------------------------------------
+
+
+def solver_kernel(label, logx, areas, a_s=0.02):
+    """The partial Operator.quad_ker builds, with equal couplings at both ends (LO, trivial
+    evolution: the evolution kernel is exactly 1 / the identity)."""
+    import functools
+
+    from eko import scale_variations as sv
+    from eko.evolution_operator import quad_ker
+    from eko.kernels import EvoMethods
+
+    return functools.partial(
+        quad_ker, order=(1, 0), mode0=label[0], mode1=label[1], ev_method=EvoMethods.ITERATE_EXACT,
+        is_log=True, logx=logx, areas=areas, as_list=np.array([a_s, a_s]), mu2_from=10.0, mu2_to=10.0,
+        a_half=np.zeros((1, 2)), alphaem_running=False, nf=4, Lsv=0.0, ev_op_iterations=1,
+        ev_op_max_order=(1, 0), sv_mode=sv.Modes.unvaried, is_threshold=False,
+        n3lo_ad_variation=(0, 0, 0, 0, 0, 0, 0), is_polarized=False, is_time_like=False, use_fhmruvv=True)
+
+
+def invert(label, logx, areas, cut=5e-2):
+    """scipy.integrate.quad exactly as Operator.run_op_integration calls it."""
+    from scipy import integrate
+
+    res = integrate.quad(solver_kernel(label, logx, areas), 0.5, 1.0 - cut,
+                         epsabs=1e-12, epsrel=1e-5, limit=100, full_output=1)
+    return float(res[0])
+
+
+C35_LABELS = {"ns": (10201, 0), "singlet": (100, 100)}
+
+
+def mellin_grid(rng, n, lo, hi):
+    """Random logarithmic grid: x_min = 10**U(lo, hi), 1 included, node spacings in log x
+    uniform with a jitter of +-45 % (so that close and wide neighbours both occur)."""
+    xmin = 10.0 ** rng.uniform(lo, hi)
+    w = [1.0 + rng.uniform(-0.45, 0.45) for _ in range(n - 1)]
+    tot = sum(w)
+    u = [math.log(xmin)]
+    for wi in w:
+        u.append(u[-1] - math.log(xmin) * wi / tot)
+    grid = np.exp(np.array(u))
+    grid[-1] = 1.0
+    return grid
+
+
+def measure_mellin(cell, sample, seed, interior=False):
+    """One C35 cell: a random log grid, every node as inversion point (except x = 1, which the
+    solver never inverts) x basis functions; per node k the conditioning class
+    k4 = floor(4 r_k dmin) and the decade of max_j |result - delta_jk|."""
+    import random
+
+    from eko import interpolation
+
+    rng = random.Random(f"{seed}|{sorted(cell.items())}|{sample}")
+    deg = cell["deg"]
+    n = rng.randint(max(cell["size"][0], deg + 1), cell["size"][1])
+    grid = mellin_grid(rng, n, *cell["xmin"])
+    u = np.log(grid)
+    dmin = float(np.min(np.diff(u)))
+    disp = interpolation.InterpolatorDispatcher(interpolation.XGrid(grid, log=True), deg, mode_N=True)
+    label = C35_LABELS[cell["contour"]]
+    pts, detail = [], []
+    npairs = 0
+    for k in range(n - 1):
+        logx = float(u[k])
+        r_k = 0.4 * 16.0 / (0.1 - logx)
+        js = range(n) if n <= 6 else sorted(set(range(max(0, k - 3), min(n, k + 4))) | set(rng.sample(range(n), 2)))
+        w, at = 0.0, None
+        for j in js:
+            val = invert(label, logx, disp[j].areas_representation)
+            r = abs(val - (1.0 if j == k else 0.0))
+            npairs += 1
+            if r >= w:
+                w, at = r, (j, val)
+        pts.append([int(min(40, math.floor(4.0 * r_k * dmin))), decade(w)])
+        detail.append({"k": k, "x": float(grid[k]), "r_dmin": r_k * dmin, "worst": w, "at_j_value": at})
+    worst_in = None
+    if interior and deg >= 2:
+        worst_in = 0.0
+        for _ in range(4):
+            x = math.exp(rng.uniform(math.log(grid[0]), math.log(grid[-2])))
+            for j in rng.sample(range(n), min(n, 4)):
+                val = invert(label, math.log(x), disp[j].areas_representation)
+                worst_in = max(worst_in, abs(val - float(disp[j].evaluate_x(x))))
+    rec = {"kind": "mellin", "cell": cell, "sample": int(sample), "pts": pts, "pairs": int(npairs)}
+    rp = {"cell": cell, "sample": sample, "grid": [float(x) for x in grid], "deg": deg, "nodes": detail,
+          "interior_worst": worst_in, "interior_r_dmin_min": 0.4 * 16.0 / (0.1 - float(u[0])) * dmin}
+    return rec, rp
